@@ -31,6 +31,12 @@ pub mod value;
 #[doc(hidden)]
 pub use tokio as __tokio;
 
+// verification facade (loom-visible primitives); only exists with `--cfg metrique_verif_loom`
+#[cfg(metrique_verif_loom)]
+#[doc(hidden)]
+#[path = "verif.rs"]
+pub mod __verif;
+
 /// Private test module to make writing internal tests easier. This might change or
 /// be fully removed in any version.
 #[cfg(any(test, feature = "private-test-util"))]
